@@ -93,6 +93,9 @@ func solve(vc *VC, o *Obligation, outDir string, timeoutMs int, seed int, all bo
 		return res
 	}
 	text := smtText(vc, o, seed)
+	if o.MustFail {
+		text = weaken(text)
+	}
 	fname := filepath.Join(outDir, sanitizeFile(o.Name)+".smt2")
 	if err := os.WriteFile(fname, []byte(text), 0o644); err != nil {
 		res.Status = "error"
@@ -141,11 +144,132 @@ func solve(vc *VC, o *Obligation, outDir string, timeoutMs int, seed int, all bo
 	if res.Status == "" {
 		res.Status = "unknown"
 		res.Millis = time.Since(start).Milliseconds()
+		if diagMode && !o.MustFail {
+			wf := strings.TrimSuffix(fname, ".smt2") + ".weak.smt2"
+			os.WriteFile(wf, []byte(weaken(text)), 0o644)
+			st, _ := runSolver(context.Background(), solvers[0], wf, timeoutMs, false)
+			if st == "sat" {
+				res.Detail += "candidate counterexample without quantified assumptions: " + wf
+			}
+		}
 	}
 	if res.Status == "sat" && !o.MustFail {
 		res.Model = getModel(vc, o, fname, res.Solver, timeoutMs)
 	}
 	return res
+}
+
+var diagMode = false
+
+// weaken drops quantified assumptions and recursive definitions (reachability probes and diagnostics only:
+// a model of the weaker theory is a candidate, never a verdict on a real obligation).
+func weaken(text string) string {
+	var b strings.Builder
+	for _, l := range strings.Split(text, "\n") {
+		if strings.Contains(l, "(forall ") || strings.Contains(l, "(exists ") || strings.HasPrefix(l, "(define-fun-rec") {
+			if strings.HasPrefix(l, "(define-fun-rec") {
+				l = strings.Replace(l, "(define-fun-rec", "(declare-fun", 1)
+				if k := defunSigEnd(l); k > 0 {
+					l = undefParams(l[:k] + ")")
+					b.WriteString(l + "\n")
+				}
+			}
+			continue
+		}
+		b.WriteString(l + "\n")
+	}
+	return b.String()
+}
+
+// defunSigEnd finds the end of "(define-fun-rec name (params) Sort" in a one-line definition.
+func defunSigEnd(l string) int {
+	// (declare-fun name ((a S) (b T)) R body)
+	i := strings.Index(l, "(")
+	i = strings.Index(l[i+1:], "(") + i + 1 // params open
+	depth := 0
+	j := i
+	for ; j < len(l); j++ {
+		if l[j] == '(' {
+			depth++
+		} else if l[j] == ')' {
+			depth--
+			if depth == 0 {
+				break
+			}
+		}
+	}
+	// result sort follows
+	k := j + 1
+	for k < len(l) && l[k] == ' ' {
+		k++
+	}
+	if k < len(l) && l[k] == '(' {
+		depth = 0
+		for ; k < len(l); k++ {
+			if l[k] == '(' {
+				depth++
+			} else if l[k] == ')' {
+				depth--
+				if depth == 0 {
+					k++
+					break
+				}
+			}
+		}
+	} else {
+		for k < len(l) && l[k] != ' ' {
+			k++
+		}
+	}
+	return k
+}
+
+// undefParams turns "((a S) (b T))" into "(S T)" in a declare-fun line.
+func undefParams(l string) string {
+	i := strings.Index(l, "((")
+	if i < 0 {
+		return l
+	}
+	depth := 0
+	j := i
+	for ; j < len(l); j++ {
+		if l[j] == '(' {
+			depth++
+		} else if l[j] == ')' {
+			depth--
+			if depth == 0 {
+				break
+			}
+		}
+	}
+	params := l[i+1 : j]
+	var sorts []string
+	for _, p := range splitParens(params) {
+		p = strings.TrimSpace(p[1 : len(p)-1])
+		k := strings.Index(p, " ")
+		sorts = append(sorts, strings.TrimSpace(p[k+1:]))
+	}
+	return l[:i] + "(" + strings.Join(sorts, " ") + ")" + l[j+1:]
+}
+
+func splitParens(s string) []string {
+	var out []string
+	depth := 0
+	start := -1
+	for i := 0; i < len(s); i++ {
+		if s[i] == '(' {
+			if depth == 0 {
+				start = i
+			}
+			depth++
+		} else if s[i] == ')' {
+			depth--
+			if depth == 0 {
+				out = append(out, s[start:i+1])
+			}
+		}
+	}
+	return out
 }
 
 func firstLines(s string, n int) string {
